@@ -1,5 +1,6 @@
+from xeng import progs, progs2, progs3
 from . import _common
 
 
 def run(out):
-    _common.run(out, 'C04', s_props=['C04'])
+    _common.run(out, 'C04', x=[dict(fn=progs3.c04_corpus, name='c04')], s_props=['C04'])
